@@ -86,6 +86,8 @@ partial def canon : GoVal → String
   | .func => "func" | .chan => "chan" | .errVal => "errv"
 
 def handleEval (T : Tables) (line : String) : String :=
+  -- map keys that are not strings (nil, int, bool keys of a map[any]any) are written as "~…": not representable in GoVal
+  if (line.splitOn "\"~").length > 1 then "UNMODELLED" else
   match Json.parse line with
   | .error e => s!"BADJSON {e}"
   | .ok j =>
